@@ -15,6 +15,8 @@ This private submodule is *not* intended for importation by downstream callers.
 # ....................{ IMPORTS                            }....................
 from beartype.roar import BeartypeClawImportConfException
 from beartype._conf.confmain import BeartypeConf
+from functools import partial
+from hashlib import sha256
 from pprint import pformat
 
 # Original cache_from_source() function defined by the private (*gulp*)
@@ -247,10 +249,6 @@ def make_cache_from_source_beartype(conf: BeartypeConf):
     under one configuration *must* thus never be reused under another.
     '''
     assert isinstance(conf, BeartypeConf), f'{repr(conf)} not configuration.'
-
-    # Avoid circular import dependencies.
-    from functools import partial
-    from hashlib import sha256
 
     # Alphanumeric substring uniquifying this configuration, derived from the
     # machine-readable representation of this configuration (which is stable
